@@ -1252,7 +1252,7 @@ def mirror_mismatch(items, emitted):
     return None
 
 
-def accepted_pool(rng, n, names="plain", usize=False, attrs=False, derive=None, rejected=None):
+def accepted_pool(rng, n, names="plain", usize=False, attrs=False, derive=None, rejected=None, self_types=False):
     """Grammars that pass validation and table construction, with their emitted text.
     `rejected` (a list) receives the (items, text, answer) of the grammars generate did not accept."""
     out = []
@@ -1262,7 +1262,7 @@ def accepted_pool(rng, n, names="plain", usize=False, attrs=False, derive=None, 
         if tries % 12 == 5:
             items = gen.long_production_grammar(rng, derive=False)
         else:
-            items = gen.random_grammar(rng, names=names, payload="usize" if usize else "mixed", derive=(rng.random() < 0.5) if derive is None else derive, max_nt=4, max_t=4, maxlen=3)
+            items = gen.random_grammar(rng, names=names, payload="usize" if usize else "mixed", derive=(rng.random() < 0.5) if derive is None else derive, max_nt=4, max_t=4, maxlen=3, self_types=self_types)
         if attrs:
             for it in items:
                 if it["kind"] != "start":
@@ -1300,7 +1300,7 @@ ATTRS_BALANCED += ["\r", "x\ry(\r)", "\t(\x00)"]
 def run_C06(rep, tier, rng):
     n = 150 if tier == "quick" else 6000
     fam = [(items, gen.render(items)) for _, items, c in gen.families() if c == "lalr"]
-    pool, tried = accepted_pool(rng, n)
+    pool, tried = accepted_pool(rng, n, self_types=True)
     outs = kv.run_impl("generate", [kv.hexs(t) for _, t in fam])
     cases = pool + [(it, t, kv.unhexs(o[4:-1])) for (it, t), o in zip(fam, outs) if o.startswith("(ok ")]
     shapes = {}
@@ -1380,7 +1380,7 @@ def rust_type_tokens(s):
 
 def run_C13(rep, tier, rng):
     n = 150 if tier == "quick" else 6000
-    pool, tried = accepted_pool(rng, n)
+    pool, tried = accepted_pool(rng, n, self_types=True)
     # deeper random types
     def rtype(d):
         if d == 0 or rng.random() < 0.3:
